@@ -55,7 +55,7 @@ func genTxn(a hx.Args) {
 
 func genEos(a hx.Args) {
 	r := hx.NewRng(a.Seed)
-	n := a.N(60, 800)
+	n := a.N(120, 1200)
 	for i := 0; i < n; i++ {
 		hx.Emit("eos %d %d %d %d %d %d %d", r.U64()%1000000, r.Intn(3), 2+r.Intn(4), 1+r.Intn(2), 2+r.Intn(3), 80+r.Intn(250), hx.Pick(r, []int{0, 5, 12}))
 	}
@@ -108,7 +108,8 @@ func readView(ctx context.Context, base []kgo.Opt, topic string, committed bool,
 	return true
 }
 
-func txnFaults(net *sim.Net, cluster *kfake.Cluster, log *sim.Log, seed uint64, faultpct int, on *atomic.Bool, keys []int16) {
+// eosKick is nil for the txn scenarios; for the eos scenarios it asks the scenario for a change of group membership.
+func txnFaults(net *sim.Net, cluster *kfake.Cluster, log *sim.Log, seed uint64, faultpct int, on *atomic.Bool, keys []int16, eosKick func()) {
 	var fmu sync.Mutex
 	frng := hx.NewRng(seed ^ 0xabcdef)
 	isKey := func(k int16) bool {
@@ -139,6 +140,7 @@ func txnFaults(net *sim.Net, cluster *kfake.Cluster, log *sim.Log, seed uint64, 
 	}
 	// injected coordinator error codes on the transactional requests that have a single top-level error
 	var emu sync.Mutex
+	commitSeen := map[int64]bool{} // producer id -> an EndTxn(commit) was handed to the coordinator since the id's last TxnOffsetCommit
 	erng := hx.NewRng(seed ^ 0x5151)
 	for _, key := range []int16{26, 25} { // EndTxn, AddOffsetsToTxn
 		key := key
@@ -147,6 +149,18 @@ func txnFaults(net *sim.Net, cluster *kfake.Cluster, log *sim.Log, seed uint64, 
 			emu.Lock()
 			inject := on.Load() && faultpct > 0 && erng.Intn(100) < faultpct/2
 			code := hx.Pick(erng, []int16{kerr.CoordinatorLoadInProgress.Code, kerr.NotCoordinator.Code, kerr.ConcurrentTransactions.Code})
+			if er, ok := kreq.(*kmsg.EndTxnRequest); ok && eosKick != nil && er.Commit {
+				// (eos scenarios) an EndTxn(commit) the coordinator refuses for good, after it accepted the TxnOffsetCommit:
+				// GroupTransactSession.End then ends the transaction as an abort and the staged offsets must be dropped.
+				// Only while the coordinator has not been handed a commit of this transaction yet: a refusal after the
+				// commit was applied (its response lost) would be an answer no broker in that state gives.
+				if !commitSeen[er.ProducerID] && erng.Chance(50) {
+					code = hx.Pick(erng, []int16{kerr.UnknownServerError.Code, kerr.TransactionAbortable.Code})
+				}
+				if !inject {
+					commitSeen[er.ProducerID] = true
+				}
+			}
 			emu.Unlock()
 			if !inject {
 				return nil, nil, false
@@ -166,6 +180,28 @@ func txnFaults(net *sim.Net, cluster *kfake.Cluster, log *sim.Log, seed uint64, 
 			return nil, nil, false
 		})
 	}
+	hbArm := 0
+	if eosKick != nil {
+		cluster.ControlKey(12, func(kreq kmsg.Request) (kmsg.Response, error, bool) {
+			cluster.KeepControl()
+			emu.Lock()
+			armed := hbArm > 0 && on.Load()
+			if armed {
+				hbArm = 0
+			}
+			emu.Unlock()
+			r, ok := kreq.(*kmsg.HeartbeatRequest)
+			if !armed || !ok {
+				return nil, nil, false
+			}
+			resp := r.ResponseKind().(*kmsg.HeartbeatResponse)
+			resp.ErrorCode = kerr.RebalanceInProgress.Code
+			log.Add("F:12:0:3")
+			hx.St.Inc("fault.eos.rebalance-between-txnoffsetcommit-and-endtxn")
+			eosKick()
+			return resp, nil, true
+		})
+	}
 	// TxnOffsetCommit answered with an abortable per-partition error (nothing is staged): End must not commit
 	if isKey(28) {
 		cluster.ControlKey(28, func(kreq kmsg.Request) (kmsg.Response, error, bool) {
@@ -175,6 +211,17 @@ func txnFaults(net *sim.Net, cluster *kfake.Cluster, log *sim.Log, seed uint64, 
 			code := hx.Pick(erng, []int16{kerr.RebalanceInProgress.Code, kerr.IllegalGeneration.Code, kerr.UnknownMemberID.Code, kerr.CoordinatorLoadInProgress.Code})
 			emu.Unlock()
 			r, ok := kreq.(*kmsg.TxnOffsetCommitRequest)
+			if ok {
+				emu.Lock()
+				commitSeen[r.ProducerID] = false
+				// (eos scenarios, classic groups) a rebalance landing between TxnOffsetCommit and EndTxn: the heartbeat
+				// End forces next is answered REBALANCE_IN_PROGRESS and the group's membership changes, so the commit whose
+				// offsets the coordinator has just staged ends as an abort while partitions of it move to other members
+				if eosKick != nil && !inject && on.Load() && faultpct > 0 && erng.Intn(100) < 2*faultpct {
+					hbArm = 1
+				}
+				emu.Unlock()
+			}
 			if !inject || !ok {
 				return nil, nil, false
 			}
@@ -220,7 +267,7 @@ func runTxn(t *testing.T, tk []string) string {
 	defer cluster.Close()
 	var faultsOn atomic.Bool
 	faultsOn.Store(true)
-	txnFaults(net, cluster, log, seed, faultpct, &faultsOn, []int16{0, 22, 24, 25, 26, 28})
+	txnFaults(net, cluster, log, seed, faultpct, &faultsOn, []int16{0, 22, 24, 25, 26, 28}, nil)
 	var initDown atomic.Bool
 	cluster.ControlKey(22, func(kreq kmsg.Request) (kmsg.Response, error, bool) {
 		cluster.KeepControl()
@@ -399,7 +446,13 @@ func runEos(t *testing.T, tk []string) string {
 	defer cluster.Close()
 	var faultsOn atomic.Bool
 	faultsOn.Store(true)
-	txnFaults(net, cluster, log, seed, faultpct, &faultsOn, []int16{0, 26, 28})
+	kick := make(chan struct{}, 1)
+	txnFaults(net, cluster, log, seed, faultpct, &faultsOn, []int16{0, 26, 28}, func() {
+		select {
+		case kick <- struct{}{}:
+		default:
+		}
+	})
 	ctx, cancel := context.WithCancel(context.Background())
 	defer cancel()
 	common := []kgo.Opt{kgo.SeedBrokers(cluster.ListenAddrs()...), kgo.Dialer(net.Stack.DialContext),
@@ -442,6 +495,7 @@ func runEos(t *testing.T, tk []string) string {
 		}
 		log.Add("Ms:%d", m)
 		defer func() { sess.Close(); log.Add("Mx:%d", m) }()
+		abortedBefore := false
 		for {
 			select {
 			case <-stop:
@@ -465,7 +519,11 @@ func runEos(t *testing.T, tk []string) string {
 				sess.Produce(ctx, &kgo.Record{Topic: "out", Key: r.Key, Value: []byte(strconv.FormatInt(tno, 10))}, nil)
 			})
 			log.Add("Bi:%d:%d:%s", m, tno, strings.Join(ids, ","))
-			if wr.Chance(40) {
+			if seed%3 != 0 {
+				// a slow pipeline (two thirds of the scenarios): the input lasts as long as the churn does, so that members
+				// join, leave and restart while transactions are in progress instead of after the input has run dry
+				time.Sleep(time.Duration(100+wr.Intn(400)) * time.Millisecond)
+			} else if wr.Chance(40) {
 				time.Sleep(time.Duration(wr.Intn(80)) * time.Millisecond)
 			}
 			want := kgo.TryCommit
@@ -484,8 +542,26 @@ func runEos(t *testing.T, tk []string) string {
 			case committed:
 				log.Add("Ee:%d:%d:committed", m, tno)
 				committedN.Add(int64(len(ids)))
+				if abortedBefore {
+					// … and once more right behind the member's next successful commit: everybody fetches the group's
+					// committed offsets again (all of them under an eager balancer)
+					abortedBefore = false
+					select {
+					case kick <- struct{}{}:
+					default:
+					}
+				}
 			default:
 				log.Add("Ee:%d:%d:aborted", m, tno)
+				if c == "c" {
+					abortedBefore = true
+					// a commit that ended as an abort (revoked meanwhile, EndTxn refused, …): in a share of the scenarios
+					// the group changes right behind it, so that partitions of the aborted commit move to another member
+					select {
+					case kick <- struct{}{}:
+					default:
+					}
+				}
 			}
 		}
 	}
@@ -503,15 +579,35 @@ func runEos(t *testing.T, tk []string) string {
 		start(slot)
 		time.Sleep(time.Duration(200+rng.Intn(1500)) * time.Millisecond)
 	}
-	for c := 0; c < 2+rng.Intn(3); c++ {
-		time.Sleep(time.Duration(500+rng.Intn(2500)) * time.Millisecond)
-		// stop one, start another
-		for i, ch := range stops {
-			if len(stops) > 1 {
-				close(ch)
-				delete(stops, i)
+	oldest := func() int {
+		o := -1
+		for i := range stops {
+			if o < 0 || i < o {
+				o = i
 			}
-			break
+		}
+		return o
+	}
+	kicks := 0
+	if seed%2 == 0 {
+		kicks = 6
+	}
+	for c := 0; c < 2+rng.Intn(3); c++ {
+		select {
+		case <-time.After(time.Duration(500+rng.Intn(2500)) * time.Millisecond):
+		case <-kick:
+			if kicks == 0 {
+				time.Sleep(time.Duration(500+rng.Intn(1000)) * time.Millisecond)
+			} else {
+				kicks--
+				c-- // an extra change of membership, right behind a commit that ended as an abort
+				hx.St.Inc("scen.eos.membership-change-behind-aborted-commit")
+			}
+		}
+		// stop one (the oldest), start another
+		if i := oldest(); len(stops) > 1 {
+			close(stops[i])
+			delete(stops, i)
 		}
 		time.Sleep(time.Duration(rng.Intn(1500)) * time.Millisecond)
 		start(slot)
@@ -535,6 +631,18 @@ func runEos(t *testing.T, tk []string) string {
 	time.Sleep(25 * time.Second)
 	if committedN.Load() < int64(nrec) {
 		log.Add("ERRunfinished")
+	}
+	// a fresh member after everybody has left: it resumes from the group's committed offsets. Every input record was
+	// committed together with its offset, so there is nothing left for it; whatever it is handed again (a committed
+	// offset that moved backwards) it transforms again, and the view below shows the duplicate
+	{
+		fstop := make(chan struct{})
+		wg.Add(1)
+		go member(hx.NewRng(seed*43+7), fstop, &wg)
+		time.Sleep(6 * time.Second)
+		close(fstop)
+		wg.Wait()
+		time.Sleep(time.Second)
 	}
 	type ent struct {
 		off  int64
